@@ -873,6 +873,24 @@ fn run_annealer<G: GraphLike>(family: &'static str, index: u64, gd: &GDesc, p: A
                         json!({"initial_width_brute_force": w0, "returned_width_brute_force": w1}));
                 }
                 nontrivial = gd.n >= 4 && !edgeless && (p.defaults || p.iterations >= 1);
+                // the same annealer object run a second time (every fourth case): whatever the
+                // first run left in the object, the result may not be wider than the start tree
+                if index % 4 == 1 && w1 <= w0 {
+                    match guarded(|| ann.run()) {
+                        Err(Caught::Oracle(m)) => c.inconclusive("oracle-error", json!({"msg": m})),
+                        Err(e) => obs.viol(&format!("{}|second-run", panic_sig("annealer.run", &e, gd.n, edgeless)), "RankwidthAnnealer::run panicked when called a second time on the same object", &[], None, &init, json!(e.text())),
+                        Ok(out2) => {
+                            st.add("op:annealer.run(second call on the same object)", 1);
+                            if obs.observe("annealer.run", &out2, &[], Some(&init), &mut st) {
+                                let (w2, _) = width_score(&brute_ranks(&out2, &go));
+                                if w2 > w0 {
+                                    obs.viol("annealer.run|width-larger-than-initial|second-run", "the decomposition returned by a second run() on the same annealer is wider than the starting tree", &[], Some(&init), &out2,
+                                        json!({"initial_width_brute_force": w0, "first_run_width": w1, "second_run_width": w2}));
+                                }
+                            }
+                        }
+                    }
+                }
             }
         }
     }
